@@ -171,9 +171,16 @@ enum Sut {
         sent: usize,
         acked: Arc<AtomicUsize>,
         books: OrderBookMapMulti<Key>,
-        task: tokio::task::JoinHandle<()>,
+        /// the manager runs on its own thread (own runtime), so that the harness can hold a read lock
+        /// on a book while the manager wants to write it
+        task: std::thread::JoinHandle<()>,
     },
 }
+
+/// how long a harness reader keeps its read guard while the manager is due to apply an event
+const READER_HOLD: std::time::Duration = std::time::Duration::from_millis(4);
+/// wall-clock bound on waiting for the manager: exceeding it is a TOOL error, never a verdict
+const MANAGER_PATIENCE: std::time::Duration = std::time::Duration::from_secs(60);
 
 fn market_event(key: Key, kind: OrderBookEvent) -> MarketStreamEvent<Key, OrderBookEvent> {
     Event::Item(MarketEvent { time_exchange: time(0), time_received: time(0), exchange: ExchangeId::BinanceSpot, instrument: key, kind })
@@ -191,7 +198,10 @@ impl Sut {
                 map.insert(OTHER, Arc::new(RwLock::new(OrderBook::default())));
                 let books = OrderBookMapMulti::new(map);
                 let manager = OrderBookL2Manager { stream: Gate { rx, delivered: 0, acked: acked.clone() }, books: books.clone() };
-                let task = tokio::spawn(manager.run());
+                let task = std::thread::spawn(move || {
+                    let rt = tokio::runtime::Builder::new_current_thread().enable_all().build().expect("manager runtime");
+                    rt.block_on(manager.run());
+                });
                 Sut::Manager { tx, sent: 0, acked, books, task }
             }
             m => usage(&format!("bad mode {m}")),
@@ -200,23 +210,50 @@ impl Sut {
 
     /// Err(description) if the code under test panicked.
     async fn push(&mut self, item: MarketStreamEvent<Key, OrderBookEvent>) -> Result<(), String> {
+        self.push_with(item, false)
+    }
+
+    /// As `push`, but (manager mode) a consumer of the shared map holds a READ lock on our book while
+    /// the manager receives the event, and releases it a moment later without waiting for the manager.
+    /// Returns whether the manager had already finished with the event while the lock was still held.
+    fn push_read(&mut self, item: MarketStreamEvent<Key, OrderBookEvent>) -> Result<(), String> {
+        self.push_with(item, true)
+    }
+
+    fn push_with(&mut self, item: MarketStreamEvent<Key, OrderBookEvent>, reader: bool) -> Result<(), String> {
         match self {
             Sut::Direct(book) => match item {
                 Event::Item(ev) if ev.instrument == OURS => catch(|| book.update(ev.kind)),
                 _ => Ok(()),
             },
-            Sut::Manager { tx, sent, acked, task, .. } => {
+            Sut::Manager { tx, sent, acked, task, books } => {
+                let shared = books.find(&OURS).expect("configured book");
+                let guard = reader.then(|| shared.read());
                 tx.send(item).map_err(|_| "manager task ended (input channel closed)".to_string())?;
                 *sent += 1;
+                if let Some(guard) = guard {
+                    // keep reading for a moment: a blocking writer waits (nothing is acknowledged); the
+                    // reader never waits for the manager, so this cannot deadlock
+                    let t0 = std::time::Instant::now();
+                    while t0.elapsed() < READER_HOLD && acked.load(Ordering::SeqCst) < *sent {
+                        std::thread::yield_now();
+                    }
+                    drop(guard);
+                }
+                let t0 = std::time::Instant::now();
                 let mut spins = 0u32;
                 while acked.load(Ordering::SeqCst) < *sent {
                     if task.is_finished() {
                         return Err("OrderBookL2Manager::run ended or panicked while applying the event".into());
                     }
-                    tokio::task::yield_now().await;
                     spins += 1;
-                    if spins > 1_000_000 {
-                        return Err("OrderBookL2Manager::run did not consume the event".into());
+                    if spins < 200 {
+                        std::hint::spin_loop();
+                    } else {
+                        std::thread::yield_now();
+                    }
+                    if spins % 4096 == 0 && t0.elapsed() > MANAGER_PATIENCE {
+                        usage("tool error: OrderBookL2Manager::run did not consume an event within 60 s");
                     }
                 }
                 Ok(())
@@ -275,6 +312,7 @@ struct Counts {
     replace: usize,
     remove: usize,
     alt_taken: usize,
+    reader_held: usize,
 }
 
 fn classify(pre: &OrderBook, bl: &Value, al: &Value, sc: Scale, c: &mut Counts) {
@@ -318,6 +356,8 @@ async fn run(args: &Args) {
     let mut trace = Out::create(args.req("trace"));
     let mut rng = rng(args.u64("seed", 1));
     let mut counts = Counts::default();
+    // reader-held events cost READER_HOLD each on the unchanged tree: a bounded number per run
+    let (mut reader_budget, reader_every) = (args.usize("readers", 400), args.usize("reader-every", 12).max(1));
     let (mut failed, mut steps) = (0usize, 0usize);
     for (n, scn) in scns.iter().enumerate() {
         let sc = Scale {
@@ -374,7 +414,15 @@ async fn run(args: &Args) {
                 "Noop" => market_event(UNKNOWN, event_of("Update", &json!([{"p": 1, "a": 1}]), &json!([]), 3, sc)),
                 _ => market_event(OURS, event_of(kind, bl, al, s, sc)),
             };
-            let r = sut.push(item).await;
+            // now and then a consumer of the shared map is reading our book when the event arrives
+            let with_reader = kind != "Noop" && reader_budget > 0 && matches!(sut, Sut::Manager { .. }) && rng.random_range(0..reader_every) == 0;
+            let r = if with_reader {
+                reader_budget -= 1;
+                counts.reader_held += 1;
+                sut.push_read(item)
+            } else {
+                sut.push(item).await
+            };
             if let Err(p) = r {
                 trace.line(&ev_line(kind, bl, al, s, json!({"panic": p})));
                 verdict = json!({"scn": n, "ok": false, "step": k + 1, "error": format!("panic: {p}"), "event": ev, "pre": project(&pre, sc)});
@@ -399,7 +447,7 @@ async fn run(args: &Args) {
         results.line(&verdict);
         if let Sut::Manager { tx, task, .. } = sut {
             drop(tx);
-            let _ = task.await;
+            let _ = task.join();
         }
     }
     results.finish();
@@ -412,7 +460,8 @@ fn summary(mode: &str, scenarios: usize, steps: usize, failed: usize, lines: usi
            "arms": {"snapshot": c.snapshot, "update": c.update, "noop": c.noop, "entries_with_duplicate_price": c.dup_price,
                     "delete_absent": c.absent_delete, "insert_front": c.insert_front, "insert_middle": c.insert_middle,
                     "insert_back": c.insert_back, "replace": c.replace, "remove": c.remove,
-                    "steps_with_several_allowed_books": c.alt_taken}})
+                    "steps_with_several_allowed_books": c.alt_taken,
+                    "events_arriving_while_a_reader_holds_the_book": c.reader_held}})
 }
 
 // ---------------------------------------------------------------------------------------------
@@ -478,6 +527,7 @@ async fn random(args: &Args) {
     let mut trace = Out::create(args.req("trace"));
     let mut rng = rng(args.u64("seed", 1));
     let mut counts = Counts::default();
+    let (mut reader_budget, reader_every) = (args.usize("readers", 400), 8);
     let sc = Scale::UNIT;
     let (mut done, mut segments, mut panics) = (0usize, 0usize, 0usize);
     while done < steps {
@@ -512,7 +562,15 @@ async fn random(args: &Args) {
                 classify(&pre, &bl, &al, sc, &mut counts);
                 ("Update", bl, al)
             };
-            let r = sut.push(market_event(OURS, event_of(kind, &bl, &al, s, sc))).await;
+            let with_reader = reader_budget > 0 && matches!(sut, Sut::Manager { .. }) && rng.random_range(0..reader_every) == 0;
+            let item = market_event(OURS, event_of(kind, &bl, &al, s, sc));
+            let r = if with_reader {
+                reader_budget -= 1;
+                counts.reader_held += 1;
+                sut.push_read(item)
+            } else {
+                sut.push(item).await
+            };
             dead = r.is_err();
             trace.line(&ev_line(kind, &bl, &al, s, match r {
                 Ok(()) => project_trace(&sut.book(OURS), sc),
@@ -524,7 +582,7 @@ async fn random(args: &Args) {
         }
         if let Sut::Manager { tx, task, .. } = sut {
             drop(tx);
-            let _ = task.await;
+            let _ = task.join();
         }
     }
     let lines = trace.finish();
